@@ -116,6 +116,10 @@ def author_wins(prog, chk):
                     if npl[1] and ".svg_style" in npl[1]:
                         ok = True
             chk.ob(ok, "A13.author-wins", "write_root_svg:style", where, "`style` is written only when svg_style is configured", "`style` is written without svg_style being configured")
+        elif key is None:
+            # a key that is not a literal here (table of defaults): which attributes are written in which presence case
+            # is decided by the evaluated site root-extent (A17)
+            chk.ok("A13.author-wins", "write_root_svg:computed-key", where, "insert with a computed key: decided by the A17 site root-extent")
         else:
             chk.bad("A13.author-wins", f"write_root_svg:{key}", where, f"root attribute `{key}` is synthesised but is not in the reviewed list")
 
